@@ -43,6 +43,8 @@ def make(cls, rnd, variant=None):
         return GM.gen_flatten_lookup(rnd), "plain", None
     if cls == "dynflatten2":
         return GM.gen_two_dynamic_flattens(rnd), "plain", None
+    if cls == "occ-then-shape":
+        return GM.gen_occ_then_shape(rnd), "plain", None
     if cls == "double-flatten":
         for _ in range(60):
             b, info = GE.gen_plain(rnd, products_only=True, allow_take=False, max_ranks=4)
